@@ -70,7 +70,10 @@ fn malformed(what: &str) -> io::Error {
 impl<'a> ParamParser<'a> {
     /// Decode all parameters once without handing them out, so that a malformed parameter block
     /// is reported as an error before the shim starts iterating (the iterator cannot fail).
-    pub(crate) fn check(&self) -> io::Result<()> {
+    ///
+    /// The types this execution binds are committed to the statement here, so that they persist
+    /// for later executions however many parameters the shim chooses to look at.
+    pub(crate) fn check(&mut self) -> io::Result<()> {
         let mut bound_types = self.bound_types.clone();
         let mut params = Params {
             params: self.params,
@@ -81,6 +84,7 @@ impl<'a> ParamParser<'a> {
             bound_types: &mut bound_types,
         };
         while params.try_next()?.is_some() {}
+        *self.bound_types = bound_types;
         Ok(())
     }
 }
